@@ -251,7 +251,8 @@ _DEAD_PARAMS_CONFIRMED = {
 
 
 def _is_stub(node) -> bool:
-    body = [st for st in node.body if not (isinstance(st, ast.Expr) and isinstance(st.value, ast.Constant))]
+    body = [st for st in node.body if not (isinstance(st, ast.Expr) and isinstance(st.value, ast.Constant))
+            and not isinstance(st, ast.Pass)]
     if not body:
         return True
     if len(body) == 1 and isinstance(body[0], (ast.Pass, ast.Raise)):
@@ -386,6 +387,13 @@ def _more_pitfalls(ctx, prop_id, files, by_name):
                     and q.name not in reads and q.kind in ("pos", "kwonly")]
             for u in dead:
                 if (fi.qualname, u) in _DEAD_PARAMS_CONFIRMED:
+                    continue
+                # the body of a confirmed function may have been parked in a private implementation that its public name
+                # only forwards to: the confirmation follows the body
+                via = [g for g in list(p.functions.values()) + [m for c in p.classes.values() for m in c.methods.values()]
+                       if getattr(g, "forwards_to", None) == fi.qualname]
+                pos_u = [q.name for q in fi.params].index(u)
+                if any(pos_u < len(g.params) and (g.qualname, g.params[pos_u].name) in _DEAD_PARAMS_CONFIRMED for g in via):
                     continue
                 sibs = [g for g in by_name.get(fi.name, []) if g is not fi and g.cls and fi.cls and not g.is_abstract
                         and not _is_stub(g.node) and any(q.name == u for q in g.params)]
